@@ -72,6 +72,7 @@ type aenv struct {
 	np                                      *v1.NodePool
 	ctrl                                    *lifecycle.Controller
 	failPoolPatch, failDelete, failNCStatus bool
+	failNodePatch                           bool
 	names                                   []string
 	ok                                      []bool
 	joined                                  []bool
@@ -91,6 +92,13 @@ func newAEnv() *aenv {
 				return apierrors.NewInternalError(fmt.Errorf("injected"))
 			}
 			return cl.SubResource(sub).Patch(ctx, obj, patch, opts...)
+		},
+		Patch: func(ctx context.Context, cl client.WithWatch, obj client.Object, patch client.Patch, opts ...client.PatchOption) error {
+			if _, ok := obj.(*corev1.Node); ok && e.failNodePatch {
+				e.failNodePatch = false
+				return apierrors.NewConflict(schema.GroupResource{Resource: "nodes"}, obj.GetName(), fmt.Errorf("injected conflict"))
+			}
+			return cl.Patch(ctx, obj, patch, opts...)
 		},
 		Delete: func(ctx context.Context, cl client.WithWatch, obj client.Object, opts ...client.DeleteOption) error {
 			if _, ok := obj.(*v1.NodeClaim); ok && e.failDelete {
@@ -231,7 +239,9 @@ func runAttempts(ops []aop) (done []aop, obs []string, fired map[string]int) {
 				nc := &v1.NodeClaim{}
 				if err := e.c.Get(ctx, client.ObjectKey{Name: e.names[o.I]}, nc); err == nil && nc.DeletionTimestamp.IsZero() && nc.Status.ProviderID != "" {
 					n := test.Node(test.NodeOptions{ObjectMeta: metav1.ObjectMeta{Name: "node-" + e.names[o.I]}, ProviderID: nc.Status.ProviderID,
-						Taints: []corev1.Taint{v1.UnregisteredNoExecuteTaint}})
+						// NotReady: the initialization step then never patches the Node, so an injected Node-patch conflict can
+						// only hit the registration step
+						ReadyStatus: corev1.ConditionFalse, Taints: []corev1.Taint{v1.UnregisteredNoExecuteTaint}})
 					kit.Apply(ctx, e.c, n)
 					e.joined[o.I] = true
 				}
@@ -249,6 +259,8 @@ func runAttempts(ops []aop) (done []aop, obs []string, fired map[string]int) {
 				e.failDelete = true
 			case "FStatusLost":
 				e.failNCStatus = true
+			case "FNodePatch":
+				e.failNodePatch = true
 			}
 			drift := e.reconcile(o.I)
 			eo := o
@@ -267,8 +279,14 @@ func runAttempts(ops []aop) (done []aop, obs []string, fired map[string]int) {
 				} else {
 					fired["FStatusLost"]++
 				}
+			case "FNodePatch":
+				if e.failNodePatch {
+					eo.Fault = "FNone" // no Node patch was issued
+				} else {
+					fired["FNodePatch"]++
+				}
 			}
-			e.failPoolPatch, e.failDelete, e.failNCStatus = false, false, false
+			e.failPoolPatch, e.failDelete, e.failNCStatus, e.failNodePatch = false, false, false, false
 			emit(eo)
 			if drift > 0 {
 				emit(aop{Kind: "tick", D: drift})
@@ -378,6 +396,7 @@ func attemptCases(c *kit.Ctx) {
 	addAttempts(c, []aop{anew(false), tick(960), rec(0, "FNone")})                                                         // 3cbc43e89
 	addAttempts(c, []aop{anew(false), tick(300), rec(0, "FDeleteErr"), rec(0, "FNone")})                                   // known finding
 	addAttempts(c, []aop{anew(true), join(0), rec(0, "FStatusLost"), rec(0, "FNone")})                                     // known finding
+	addAttempts(c, []aop{anew(false), anew(false), tick(300), rec(0, "FNone"), rec(1, "FNone"), anew(true), join(2), rec(2, "FNodePatch"), rec(2, "FNone"), anew(true), join(3), rec(3, "FNodePatch"), rec(3, "FNodePatch"), rec(3, "FNone")}) // seeded C20-5
 	addAttempts(c, []aop{anew(true), anew(false), join(0), rec(0, "FNone"), tick(300), rec(1, "FNone"), env("ECrash"), env("EHealth"), anew(true), join(2), rec(2, "FNone")})
 	addAttempts(c, []aop{anew(false), anew(false), tick(299), rec(0, "FNone"), tick(1), rec(0, "FNone"), rec(1, "FPoolConflict"), rec(1, "FNone"), anew(true), tick(899), rec(2, "FNone"), tick(1), join(2), rec(2, "FNone")})
 	addAttempts(c, []aop{anew(true), tick(900), rec(0, "FNone"), anew(true), tick(900), rec(1, "FPoolConflict"), rec(1, "FNone"), anew(true), join(2), rec(2, "FPoolConflict"), tick(900), rec(2, "FNone")})
@@ -389,7 +408,7 @@ func attemptCases(c *kit.Ctx) {
 	for k := 0; k < n; k++ {
 		r := c.Rand.Fork()
 		// at most one kind of not-yet-repaired fault per history so that a keyed case is confined to one finding
-		extra := []string{"FPoolConflict"}
+		extra := []string{"FPoolConflict", "FNodePatch"}
 		switch r.Intn(4) {
 		case 0:
 			extra = append(extra, "FDeleteErr")
